@@ -381,7 +381,7 @@ fn zero_strategy() -> impl Strategy<Value = ZeroCase> {
         .prop_map(|(partial, unit_arg, accepts, one_stub, calls)| ZeroCase { partial, unit_arg, accepts, one_stub, calls })
 }
 
-pub const RULE: &str = "scenarios = generated unordered clause lists (1-6 patterns per method, arbitrary 8-bit accept masks over args 0..8, some_call/each_call/stub forms, patterns of one method split over several clauses) x histories of up to 24 calls routed through the original or clones, strict and partial; wide-clause-lists = the same with up to 16 separate clauses over 3 methods (every mock is built from a REAL tuple of the list's arity); zero-sized-inputs = 1-5 accepting / rejecting patterns on a method without arguments or with a unit-struct argument (one stub or separate clauses), 0-4 calls, strict and partial; two-argument-macro-patterns = ten patterns over (u8, u8) written with the real matching! macro (two eq!/ne! operands in one alternative, alternatives with operands at different positions, ranges, guards), every single pattern and every ordered pair x every (a, b) in 0..4 x 0..4 x {separate clauses, one stub}, enumerated: the call is answered by the first pattern whose Rust-match equivalent accepts; non-trivial = some call is accepted by >= 2 patterns of its method and an earlier call to the same method already matched; distinct = distinct scenario (hash of the whole case)";
+pub const RULE: &str = "scenarios = generated unordered clause lists (1-6 patterns per method, arbitrary 8-bit accept masks over args 0..8, some_call/each_call/stub forms, patterns of one method split over several clauses) x histories of up to 24 calls routed through the original or clones, strict and partial; wide-clause-lists = the same with up to 16 separate clauses over 3 methods (every mock is built from a REAL tuple of the list's arity); zero-sized-inputs = 1-5 accepting / rejecting patterns on a method without arguments or with a unit-struct argument (one stub or separate clauses), 0-4 calls, strict and partial; two-argument-macro-patterns = ten patterns over (u8, u8) written with the real matching! macro (two eq!/ne! operands in one alternative, alternatives with operands at different positions, ranges, guards), every single pattern and every ordered pair x every (a, b) in 0..4 x 0..4 x {separate clauses, one stub}, enumerated: the call is answered by the first pattern whose Rust-match equivalent accepts; racing-* = every schedule of 2-3 threads x 1-2 calls (sampled to 4x3) on two unordered patterns of one method, the first (with a response chain) accepting half of the argument domain: rejected and accepted calls race, the responses handed out equal those of the sequential run (C10's scheduler); non-trivial = some call is accepted by >= 2 patterns of its method and an earlier call to the same method already matched; distinct = distinct scenario (hash of the whole case)";
 
 pub fn run(ctx: &Ctx) -> Verdict {
     let mut v = Verdict::new("exploration", RULE);
@@ -408,6 +408,14 @@ pub fn run(ctx: &Ctx) -> Verdict {
     #[cfg(feature = "std")]
     v.subs.push(vcore::run_proptest(ctx, "zero-sized-inputs", ctx.tier.pick(4_000, 100_000), zero_strategy(), check_zero));
     v.subs.push(vcore::run_enumerated(ctx, "two-argument-macro-patterns", two_arg_grid(), check_two_arg));
+    // a pattern that rejects a call must not influence the answer of a concurrent call it accepts: every schedule of
+    // 2-3 threads on (half-accepting pattern with a response chain, catch-all pattern) - C10's scheduler
+    #[cfg(feature = "std")]
+    for mut s in super::c10::run_kinds(ctx, &[(2, 1), (2, 2), (3, 1)], &[super::c10::Kind::UnorderedRejecting]) {
+        let renamed = format!("racing-{}", s.name);
+        s.rename(renamed);
+        v.subs.push(s);
+    }
     if ctx.tier == vcore::Tier::Thorough {
         v.subs.push(super::fuzz_campaign(ctx, 1_500_000));
     }
@@ -416,6 +424,10 @@ pub fn run(ctx: &Ctx) -> Verdict {
 }
 
 pub fn replay(_sub: &str, case: Value) -> Result<(), String> {
+    #[cfg(feature = "std")]
+    if _sub.starts_with("racing") {
+        return super::c10::replay(_sub, case);
+    }
     if _sub == "two-argument-macro-patterns" {
         let c: TwoArgCase = serde_json::from_value(case).map_err(|e| format!("HARNESS: bad case: {e}"))?;
         return check_two_arg(&c).map(|_| ());
